@@ -21,6 +21,14 @@ CLAIMED = {
    tech="TLC enumerates request contents (Wire!ContentCases) and evaluates Wire!Permitted (RFC 6241 section 8 table) against what a real session put on the wire for every capability set",
    text="Both directions (no leak, no over-restriction) for every capability subset (thorough: all 8192) x 117 request contents through the public builders on real sessions.",
    note="Wire!Permitted is a transcription of RFC 6241 section 8 (trusted base)"),
+ "C10": dict(engine="wire", cat="exploration",
+   tech="TLC enumerates (text-valued parameter, string of character classes) cases (WireGen C10Cases); each is sent through a real session; the captured bytes are parsed by the harness' strict XML parser; Wire/WireTrace C10Viol checks one trailing delimiter, well-formedness, recovered = given",
+   text="16 parameters x all class strings up to length 2 (thorough 3) incl. metacharacters, quotes, the delimiter, non-ASCII; plus a request following a request whose payload failed to serialise. The specification contributes the enumeration and the acceptance relation; byte fidelity is decided by the harness parser.",
+   note="harness XML parser is the trusted base; namespace well-formedness not demanded"),
+ "C13": dict(engine="wire", cat="exploration",
+   tech="TLC enumerates every subset of 7 information-preserving rewrites (WireGen C13Cases); 9 message templates are rendered per subset and parsed by the real session / reply readers; WireTrace C13Viol requires the outcome digest to equal that of the plain serialisation",
+   text="1152 serialisations; a failing composition is attributed to the single rewrite that fails on its own. Configuration-data readers of the agent are exercised through C16's statement shapes (attribute order, duplicated xmlns) rather than here.",
+   note="<get> data is compared by XML information content; templates are mine, not a grammar-complete set"),
  "C12": dict(engine="wire", cat="model_checking",
    tech="TLC enumerates the server-hello matrix; real Session establishment per case; TLC checks establishment, negotiated version, reported id/capabilities and outgoing framing (Wire.tla C12 relations)",
    text="Exhaustive over base-version subsets x session-id shapes x namespace style x exchange order x malformed hellos.",
@@ -81,7 +89,7 @@ ENGINES = [
   "kind_free_text": "TLC (Framing.tla, MCFraming, FramingGen, FramingTrace) + Rust driver with scripted TLS / child-process / SSH peers"},
  {"name": "session", "path": "tools/check_session.py", "serves_properties": ["C05", "C18"],
   "kind_free_text": "TLC (Session.tla, MCSession, MCSessionGen, SessionTrace) + Rust poll-level executor over an in-memory transport"},
- {"name": "wire", "path": "tools/check_wire.py", "serves_properties": ["C08", "C09", "C12"],
+ {"name": "wire", "path": "tools/check_wire.py", "serves_properties": ["C08", "C09", "C10", "C12", "C13"],
   "kind_free_text": "TLC as enumerator (WireGen.tla) and oracle (Wire.tla relations in WireTrace.tla) + Rust driver issuing real RPCs over the in-memory transport"},
 ]
 NA_REASON = {}
